@@ -465,6 +465,39 @@ func (g *Guided) oneField(l capnp.List, v *ref.V, idx []int, sz int, path string
 		if want := expectData(v.Data[i*sz:(i+1)*sz], 0, sz); got != want {
 			return mm(path, "List.Struct.Uint/primitive", "[%d] got %#x want %#x", i, got, want)
 		}
+		// A field that is not wholly inside the sz-byte data section does not
+		// exist in this struct: it reads as zero (never as the bytes of the
+		// neighbouring elements); narrower fields inside it read its bytes.
+		elem := v.Data[i*sz : (i+1)*sz]
+		for _, w := range []int{1, 2, 4, 8} {
+			for off := 0; off < 16; off += w {
+				var got, want uint64
+				switch w {
+				case 1:
+					got = uint64(st.Uint8(capnp.DataOffset(off)))
+				case 2:
+					got = uint64(st.Uint16(capnp.DataOffset(off)))
+				case 4:
+					got = uint64(st.Uint32(capnp.DataOffset(off)))
+				default:
+					got = st.Uint64(capnp.DataOffset(off))
+				}
+				if off+w <= sz {
+					want = expectData(elem, off, w)
+				}
+				g.Compared++
+				if got != want {
+					return mm(path, "List.Struct.Uint/primitive-field-extent", "[%d] %d-byte field at byte %d of a %d-byte element: got %#x want %#x", i, w, off, sz, got, want)
+				}
+			}
+		}
+		for bit := 0; bit < 72; bit++ {
+			want := bit < sz*8 && elem[bit/8]&(1<<uint(bit%8)) != 0
+			g.Compared++
+			if st.Bit(capnp.BitOffset(bit)) != want {
+				return mm(path, "List.Struct.Bit/primitive-field-extent", "[%d] bit %d of a %d-byte element: got %v want %v", i, bit, sz, !want, want)
+			}
+		}
 	}
 	return nil
 }
